@@ -357,6 +357,9 @@ func FetchProtos(req *types.FetchNodeCredentialsRequest) []string {
 	if err != nil {
 		panic(err)
 	}
+	if len(b) == 0 {
+		return []string{nodeenrollment.FetchNodeCredsNextProtoV1Prefix + "00-"}
+	}
 	out, err := nodetls.BreakIntoNextProtos(nodeenrollment.FetchNodeCredsNextProtoV1Prefix, base64.RawStdEncoding.EncodeToString(b))
 	if err != nil {
 		panic(err)
